@@ -1,4 +1,4 @@
-import GB.C13.Proofs
+import GB.C13.Proofs2
 import GB.Generated.Facts
 import GB.C09.Props
 /-
@@ -415,3 +415,106 @@ theorem C13_entry_points_m6_fails :
     (entryBind (wiredTranscoderM6 opts) .ws r).toOption.map (·.respM.binary) = some false ∧
     (entryBind (wiredTranscoder opts) .ws r).toOption.map (·.respM.binary) = some true := by
   decide
+
+/-! ## ===== round 5 (deepening): chunk-boundary safety =====
+
+  An HTTP client never sees "the body": it sees whatever `Read` returns, cut at arbitrary places. The
+  theorems below say that the cut points are irrelevant, that reading more never revises what was already
+  surfaced, and that a record is surfaced only once its terminator has arrived — so at every moment the
+  records a client holds are a prefix of the messages sent, and at the end they are exactly the messages.
+  Preconditions on the payload bytes are the same as for `C13_lines` / `C13_sse` (necessary:
+  `C13_lines_fails_on_raw_newline`, `C13_chunk_witness_raw_newline`; discharged for compact JSON bodies by
+  `C13_json_lines_lossless` / `C13_sse_lossless` through the C09 renderer). -/
+
+/-- Chunking is irrelevant (NDJSON): an incremental reader fed any sequence of chunks holds exactly the
+    records of the concatenation. No hypothesis on the bytes. -/
+theorem C13_chunked_lines (chunks : List Bytes) : readLinesChunked chunks = splitLines chunks.flatten := by
+  unfold readLinesChunked
+  rw [foldl_chunks lineByte chunks, lineFold_recs]
+  rfl
+
+/-- Chunking is irrelevant (SSE). -/
+theorem C13_chunked_sse (chunks : List Bytes) : readSSEChunked chunks = parseSSE chunks.flatten := by
+  unfold readSSEChunked parseSSE
+  rw [foldl_chunks sseByte chunks]
+
+/-- Reading more bytes only appends records (both readers, every byte string): nothing already surfaced
+    is ever withdrawn or changed. -/
+theorem C13_readers_monotone (a b : Bytes) :
+    splitLines a <+: splitLines (a ++ b) ∧ parseSSE a <+: parseSSE (a ++ b) :=
+  ⟨by rw [splitLines_append]; exact List.prefix_append _ _, parseSSE_append a b⟩
+
+/-- Every prefix of an NDJSON stream body parses to a prefix of the messages: no partial record is ever
+    surfaced, whatever `k` bytes have arrived. -/
+theorem C13_lines_prefix_safe (bs : List Bytes) (h : ∀ b ∈ bs, LF ∉ b) (k : Nat) :
+    splitLines ((streamBody false bs).take k) <+: bs := by
+  have hm := (C13_readers_monotone ((streamBody false bs).take k) ((streamBody false bs).drop k)).1
+  rw [List.take_append_drop, C13_lines bs h] at hm
+  exact hm
+
+/-- Every prefix of an SSE stream body parses to a prefix of the messages. -/
+theorem C13_sse_prefix_safe (bs : List Bytes) (h : ∀ b ∈ bs, LF ∉ b ∧ CR ∉ b ∧ b.head? ≠ some SP) (k : Nat) :
+    parseSSE ((streamBody true bs).take k) <+: bs := by
+  have hm := (C13_readers_monotone ((streamBody true bs).take k) ((streamBody true bs).drop k)).2
+  rw [List.take_append_drop, C13_sse bs h] at hm
+  exact hm
+
+/-- Exactly the complete records: after `bs₁` whole records and any part `p` of the next one short of its
+    line feed, the client holds `bs₁` — the partial record is withheld, the complete ones are all there. -/
+theorem C13_lines_partial_withheld (bs₁ : List Bytes) (p : Bytes) (h : ∀ b ∈ bs₁, LF ∉ b) (hp : LF ∉ p) :
+    splitLines (streamBody false bs₁ ++ p) = bs₁ := by
+  rw [splitLines_append, C13_lines bs₁ h, lineRest_streamBody bs₁ h,
+    splitLinesAux_noLF p [] (fun x hx e => hp (e ▸ hx))]
+  simp
+
+/-- The same for SSE: after whole events `bs₁` and any part `p` of the next event short of its final blank
+    line (`p` a prefix of `data:<payload>\n`), the client has dispatched exactly `bs₁`. -/
+theorem C13_sse_partial_withheld (bs₁ : List Bytes) (b p : Bytes)
+    (h : ∀ b ∈ bs₁, LF ∉ b ∧ CR ∉ b ∧ b.head? ≠ some SP) (hb : LF ∉ b ∧ CR ∉ b ∧ b.head? ≠ some SP)
+    (hp : p <+: dataPrefix ++ b ++ [LF]) :
+    parseSSE (streamBody true bs₁ ++ p) = bs₁ := by
+  unfold parseSSE
+  have h0 : sseInit = cleanSt [] := rfl
+  rw [List.foldl_append, h0,
+    sse_stream bs₁ [] (fun b hb => ⟨fun x hx => ⟨fun e => (h b hb).1 (e ▸ hx), fun e => (h b hb).2.1 (e ▸ hx)⟩, (h b hb).2.2⟩),
+    sse_partial_event b p _ (fun x hx => ⟨fun e => hb.1 (e ▸ hx), fun e => hb.2.1 (e ▸ hx)⟩) hb.2.2 hp]
+  simp
+
+/-- The client's view, end to end: the network delivers the stream body in arbitrary chunks; after every
+    number `j` of chunks the records held are a prefix of the messages, and after the last chunk they are
+    exactly the messages — for NDJSON and for SSE. -/
+theorem C13_chunked_stream (sse : Bool) (bs : List Bytes)
+    (h : ∀ b ∈ bs, LF ∉ b ∧ (sse = true → CR ∉ b ∧ b.head? ≠ some SP))
+    (chunks : List Bytes) (hc : chunks.flatten = streamBody sse bs) (j : Nat) :
+    (if sse then readSSEChunked (chunks.take j) else readLinesChunked (chunks.take j)) <+: bs ∧
+    (if sse then readSSEChunked chunks else readLinesChunked chunks) = bs := by
+  have hsplit : (chunks.take j).flatten ++ (chunks.drop j).flatten = streamBody sse bs := by
+    rw [← List.flatten_append, List.take_append_drop, hc]
+  cases sse with
+  | false =>
+    have hl : ∀ b ∈ bs, LF ∉ b := fun b hb => (h b hb).1
+    simp only [Bool.false_eq_true, ↓reduceIte, C13_chunked_lines]
+    refine ⟨?_, by rw [hc]; exact C13_lines bs hl⟩
+    have hm := (C13_readers_monotone (chunks.take j).flatten (chunks.drop j).flatten).1
+    rw [hsplit, C13_lines bs hl] at hm
+    exact hm
+  | true =>
+    have hl : ∀ b ∈ bs, LF ∉ b ∧ CR ∉ b ∧ b.head? ≠ some SP := fun b hb => ⟨(h b hb).1, (h b hb).2 rfl⟩
+    simp only [↓reduceIte, C13_chunked_sse]
+    refine ⟨?_, by rw [hc]; exact C13_sse bs hl⟩
+    have hm := (C13_readers_monotone (chunks.take j).flatten (chunks.drop j).flatten).2
+    rw [hsplit, C13_sse bs hl] at hm
+    exact hm
+
+/-- Without the precondition the prefix property itself fails: with the D23 payload `[\n]` a client that has
+    received 2 bytes holds the record `[`, which is not a prefix of the messages sent (kernel-checked). -/
+theorem C13_chunk_witness_raw_newline :
+    splitLines ((streamBody false [[91, 10, 93]]).take 2) = [[91]] ∧ ¬ ([[91]] <+: [([91, 10, 93] : Bytes)]) ∧
+    readLinesChunked [[91], [10, 93], [10]] = [[91], [93]] := by
+  refine ⟨by decide, ?_, by decide⟩
+  intro hp
+  obtain ⟨t, ht⟩ := hp
+  simp at ht
+
+example : readLinesChunked [[123], [125, 10, 91], [93], [10]] = [[123, 125], [91, 93]] := by decide
+example : readSSEChunked [[100, 97], [116, 97, 58, 120, 10], [10, 100]] = [[120]] := by decide
